@@ -21,7 +21,7 @@ def run(tier):
     rc, fc, mc = gen.rule_corpus(), gen.fold_corpus(), gen.mem_pair_corpus()
     if tier == "quick":
         rc, fc, mc = rng.sample(rc, 250), rng.sample(fc, 300), rng.sample(mc, 300)
-    runs += e2e.run_optimize(rc + fc + mc + gen.store_of_load_corpus() + gen.hash_pair_corpus() + gen.dead_load_corpus() + gen.overwritten_store_corpus(), [["-greedy"]] if tier == "quick" else [["-greedy"], ["-greedy", "-size"]], assign="all")
+    runs += e2e.run_optimize(rc + fc + mc + gen.store_of_load_corpus() + gen.hash_pair_corpus() + gen.dead_load_corpus() + gen.overwritten_store_corpus() + gen.cross_region_corpus() + gen.deep_stack_blocks(sd * 23 + 2, 60 if tier == "quick" else 800), [["-greedy"]] if tier == "quick" else [["-greedy"], ["-greedy", "-size"]], assign="all")
     c = Counter()
     pairs = []
     lens = Counter()
